@@ -43,7 +43,10 @@ func main() {
 			"the same text from another file / line / level) against the real logger in a child process, with concurrent SetLogLevel/SetPkgLevels/UnSetPkgLevels, " +
 			"slow adapter (buffer overflow), paced or free-running writer, delays injected at hook points, Shutdown at the end or mid-run; " +
 			"non-trivial = more than one goroutine or more than 50 lines and at least one line written; distinct by recorded trace. " +
-			"lv cases: level-filter probes (global/package level × origin × severity) on an in-process logger",
+			"lv cases: level-filter probes (global/package level × origin × severity) on an in-process logger; " +
+			"at cases: AddTracer probes (global level 0–7 × package levels inactive / origin listed at trace / listed above / NOT listed × fresh, nil or already traced context; " +
+			"one line of a random severity through whatever came back, Submit); every AddTracer call of a scenario is recorded with the configuration in force and replayed through the model; " +
+			"scenarios 'mixed' and 'tracer' draw the three package-level states per origin under every global level (also through -log/-plog)",
 		Generate: generate, NewExec: newExec, Monitor: monitor,
 		DisSig: func(line, impl, model string) string {
 			return "corr:" + strings.Fields(line)[0] + ":" + firstWords(model, 3)
